@@ -4,6 +4,7 @@ import SmsVerif.Driver.Meta
 import SmsVerif.Driver.Auth
 import SmsVerif.Driver.Gsm7
 import SmsVerif.Driver.Split
+import SmsVerif.Driver.MsgId
 open SmsVerif SmsVerif.Driver
 
 def dispatch (line : String) : String :=
@@ -14,6 +15,7 @@ def dispatch (line : String) : String :=
   | "dec" :: toks => (handleDec toks).getD "bad-op"
   | "decalloc" :: toks => (handleDecAlloc toks).getD "bad-op"
   | ["pdus"] => handlePdus
+  | "msgid" :: toks => (handleMsgId toks).getD "bad-op"
   | "split" :: toks => (handleSplit toks).getD "bad-op"
   | "parselong" :: toks => (handleParseLong toks).getD "bad-op"
   | "gsm" :: toks => (handleGsm toks).getD "bad-op"
